@@ -4,7 +4,7 @@ from ..models import Sym, lift_skeleton, make_interp
 from ..values import NONE, DictV, Hole, IntV, ListV, Obj, Str, TupleV, Value
 
 FLOORS = {"C13.M8.expansion-equals-inlining": 14, "C13.M2.fresh-copy-before-substitution": 2,
-          "C13.M1.definition-unaltered": 4, "C13.M5.extra-files-prepended-fresh": 1, "C13.M3.arguments-from-call-node": 2}
+          "C13.M1.definition-unaltered": 4, "C13.M5.extra-files-prepended-fresh": 1, "C13.M3.arguments-from-call-node": 2, "C13.M9.compiles-to-the-same-regex": 14}
 
 
 def same_tree(a: Value, b: Value) -> bool:
@@ -123,8 +123,31 @@ def run(ctx) -> None:
                         tree.pairs[0][0].render().startswith("@")
                     ctx.check(ok, "C13.M3.arguments-from-call-node", "MacroExpander._resolve_local_macro",
                               f"arguments looked up in {tree!r}"[:120], "the argument values are looked up inside the call node only")
+    # M9: the rule with macros compiles to the same regex as the inlined rule (all 4 flag settings)
+    def compiled(doc):
+        def thunk(I):
+            so = Obj(y2r, {"loaded_file": lift_skeleton(I, doc), "macros_from_terminal_filepath": NONE})
+            pats = I.call_func(y2r.find_method("_get_pattern"), [], {}, so, None, None)
+            tree = I.call_func(y2r.find_method("_generate_rule_tree"), [], {"patterns": pats}, so, None, None)
+            return I.call_func(tree.cls.find_method("get_regex"), [], {}, tree, None, None)
+        out = set()
+        for p in I.explore(thunk):
+            fl = (p.assumed(("truth", "b", "cfg[MnemonicsFullMatch]")), p.assumed(("truth", "b", "cfg[OperandsFullMatch]")))
+            out.add((fl, p.kind, I.expr_of(p.value) if p.kind == "return" else repr(p.exc)[:80]))
+        return out
+    twice = [("block macro with sibling times used twice", [{"name": "@rep", "pattern": [{"$or": [S("A"), S("B")], "times": 2}]}],
+              ["@rep", S("X"), "@rep"], [{"$or": [S("A"), S("B")], "times": 2}, S("X"), {"$or": [S("A"), S("B")], "times": 2}]),
+             ("block macro with a timed mnemonic used twice", [{"name": "@pp", "pattern": [{S("P"): [S("O")], "times": {"min": 1, "max": 3}}]}],
+              ["@pp", "@pp"], [{S("P"): [S("O")], "times": {"min": 1, "max": 3}}, {S("P"): [S("O")], "times": {"min": 1, "max": 3}}])]
+    for label, macros, pattern, inlined in [(a, b, c, d) for a, b, c, d in SHAPES] + twice:
+        with_m = compiled({"macros": macros, "pattern": pattern})
+        manual = compiled({"pattern": inlined})
+        diff = sorted(with_m ^ manual, key=str)
+        ctx.check(not diff, "C13.M9.compiles-to-the-same-regex", f"produce_regex[{label}]", (str(diff[0]) if diff else "")[:300],
+                  f"the rule written with macros compiles to the same regex as the inlined rule ({label})")
     # M5 extra macro files: loaded afresh, once each, prepended in order
-    Is = make_interp(ctx.p, {"Yaml2Regex.load_file": load_file_summary})
+    from ..matchflow import YAML_SUMMARIES
+    Is = make_interp(ctx.p, dict(YAML_SUMMARIES))
     captured = {}
 
     def s_resolve(I, func, self_val, args, kwargs, node, fr):
@@ -147,7 +170,7 @@ def run(ctx) -> None:
             continue
         seen = p.run.user.get("seen", [])
         names = [[m.pairs[0][1].render() for m in s.items] if isinstance(s, ListV) else repr(s) for s in seen]
-        loads = [Is.expr_of(e.file) for e in p.events if e.kind == "load_file"]
+        loads = [Is.expr_of(e.file) for e in p.events if e.kind == "load_file" and Is.expr_of(e.file) in ("<F1>", "<F2>")]
         fresh = len(seen) == 2 and isinstance(seen[0], ListV) and isinstance(seen[1], ListV) and all(
             a is not b for a, b in zip(seen[0].items[:3], seen[1].items[:3]))
         ok = names == [["@b", "@a", "@a2", "@r"]] * 2 and loads == ["<F2>", "<F1>"] * 2 and fresh
